@@ -178,6 +178,10 @@ def check(ctx):
     # the law of reaction i is what is assigned to k[i] (shared with C06.R1: statement / index / rate expression of the same reaction)
     from .c06 import _r1 as assignment_rule
     ctx.absorb(assignment_rule, "R5")
+    # ... and nothing else writes k[]: no clamp / filter after the generated assignments (who-may-write rule, all back-ends)
+    from .. import cwriters as W
+    nw = W.check_writers(ctx, "R6", [W.RATES, W.ODE, W.FEX, W.JAC], W.RATE_ARRAYS, "the rate coefficients")
+    ctx.floor("R6", "declarations of k/kh/kc met", nw, 12)
 
 
 # ------------------------------------------------------------------ R1
@@ -380,6 +384,7 @@ U = "naunet/reactions/umistreaction.py"
 L = "naunet/reactions/leedsreaction.py"
 UC = "naunet/reactions/uclchemreaction.py"
 MUTANTS = [
+    {"name": "evalrates-clamps-negative", "file": "naunet/templates/cvode/src/naunet_rates.cpp.j2", "old": "    // clang-format on\n\n    return NAUNET_SUCCESS;\n}\n\n// clang-format off\n{% if general.device == \"gpu\" -%} __device__ {% endif -%}\nint EvalHeatingRates", "new": "    // clang-format on\n\n    for (int i = 0; i < NREACTIONS; i++) {\n        if (k[i] < 0.0) k[i] = 0.0;\n    }\n    return NAUNET_SUCCESS;\n}\n\n// clang-format off\n{% if general.device == \"gpu\" -%} __device__ {% endif -%}\nint EvalHeatingRates", "rules": ["R6"]},
     {"name": "ip1-constant", "file": K, "old": "0.62 + 0.4767*{c}", "new": "0.62 + 0.4667*{c}", "rules": ["R3"]},
     {"name": "kooij-300-to-30", "file": U, "old": 'f"pow(Tgas/300.0, {b})" if b else "",', "new": 'f"pow(Tgas/30.0, {b})" if b else "",', "rules": ["R3"]},
     {"name": "crphot-albedo-dropped", "file": U, "old": 'rate = f"{a} * pow(Tgas/300.0, {b}) * {c} / (1-omega)"', "new": 'rate = f"{a} * pow(Tgas/300.0, {b}) * {c}"', "rules": ["R3"]},
